@@ -38,6 +38,8 @@ fn get_server_values_impl(socket: &mut UdpSocket) -> GDResult<HashMap<String, St
     let mut received_query_id: Option<usize> = None;
     let mut parts: Vec<usize> = Vec::new();
     let mut is_finished = false;
+    // How many parts the response has, known once the part carrying `final` arrived
+    let mut expected_parts: Option<usize> = None;
 
     let mut server_values = HashMap::new();
 
@@ -63,11 +65,12 @@ fn get_server_values_impl(socket: &mut UdpSocket) -> GDResult<HashMap<String, St
             server_values.insert(key, value);
         }
 
-        is_finished = server_values.remove("final").is_some();
+        let is_final_part = server_values.remove("final").is_some();
 
         let query_data = server_values.get("queryid");
 
         let mut part = parts.len(); // if the part number isn't provided, it's value is the parts length
+        let mut has_part_number = false;
         let mut query_id = None;
         if let Some(qid) = query_data {
             let split: Vec<&str> = qid.split('.').collect();
@@ -75,7 +78,10 @@ fn get_server_values_impl(socket: &mut UdpSocket) -> GDResult<HashMap<String, St
             query_id = Some(split[0].parse().map_err(|e| TypeParse.context(e))?);
             match split.len() {
                 1 => (),
-                2 => part = split[1].parse().map_err(|e| TypeParse.context(e))?,
+                2 => {
+                    part = split[1].parse().map_err(|e| TypeParse.context(e))?;
+                    has_part_number = true;
+                }
                 _ => Err(GDErrorKind::PacketBad)?, /* the queryid can't be splitted in more than 2
                                                     * elements */
             };
@@ -93,6 +99,16 @@ fn get_server_values_impl(socket: &mut UdpSocket) -> GDResult<HashMap<String, St
             true => Err(GDErrorKind::PacketBad)?,
             false => parts.push(part),
         }
+
+        // Parts are numbered from 1 and can arrive in any order: the final part tells how
+        // many there are, reception is complete once all of them are here.
+        if is_final_part {
+            expected_parts = Some(match has_part_number {
+                true => part,
+                false => parts.len(),
+            });
+        }
+        is_finished = expected_parts.is_some_and(|expected| parts.len() >= expected);
     }
 
     Ok(server_values)
